@@ -1109,6 +1109,32 @@ where
         edge: &EdgeOfFunc<'id, Self>,
         literal_set: &EdgeOfFunc<'id, Self>,
     ) -> AllocResult<EdgeOfFunc<'id, Self>> {
+        /// Remove all literals from `set` which are above level `until`
+        ///
+        /// `set` is a conjunction of literals, so popping a literal resorts
+        /// to taking the child that is not ⊥.
+        fn literal_set_pop<'a, M: Manager<Terminal = BDDTerminal>>(
+            manager: &'a M,
+            set: Borrowed<'a, M::Edge>,
+            until: LevelNo,
+        ) -> Borrowed<'a, M::Edge>
+        where
+            M::InnerNode: HasLevel,
+        {
+            match manager.get_node(&set) {
+                Node::Inner(n) if n.level() < until => {
+                    let (t, e) = collect_children(n);
+                    let next = if manager.get_node(&t).is_terminal(&BDDTerminal::False) {
+                        e
+                    } else {
+                        t
+                    };
+                    literal_set_pop(manager, next, until)
+                }
+                _ => set,
+            }
+        }
+
         fn inner<M: Manager<Terminal = BDDTerminal>>(
             manager: &M,
             edge: Borrowed<M::Edge>,
@@ -1122,14 +1148,16 @@ where
             };
             let level = node.level();
 
-            let literal_set = crate::set_pop(manager, literal_set, level);
+            let literal_set = literal_set_pop(manager, literal_set, level);
             let (literal_set, c) = match manager.get_node(&literal_set) {
                 Node::Inner(node) if node.level() == level => {
+                    // Continue with the remaining literals, i.e., the child
+                    // that is not ⊥
                     let (t, e) = collect_children(node);
                     if manager.get_node(&e).is_terminal(&BDDTerminal::False) {
-                        (e, true)
+                        (t, true)
                     } else {
-                        (t, false)
+                        (e, false)
                     }
                 }
                 _ => (literal_set, false),
